@@ -2,7 +2,7 @@
 From Coq Require Import ZArith List Bool Lia QArith Qround.
 Import ListNotations.
 From GV Require Import Common.PyInt C10.Model.
-From GV Require Export C10.Lemmas1 C10.Lemmas2 C10.Lemmas3 C10.Lemmas4 C10.Lemmas5.
+From GV Require Export C10.Lemmas1 C10.Lemmas2 C10.Lemmas3 C10.Lemmas4 C10.Lemmas5 C10.Lemmas6.
 From GV Require C20.Model.
 Open Scope Z_scope.
 
@@ -66,6 +66,20 @@ Proof.
   destruct (stat_view_correct A res R nan Hnil shape a filt m view red Hsh Hl) as [H1 H2].
   split; [exact H1|]. intros o Ho. rewrite (H2 o Ho). apply textbook_lanep.
 Qed.
+
+(* the same for views that contain integers: a dimension of the data disappears, so that the position in
+   subarray_slices (mask_idim) and the axis of the data (idim) run apart in the view recombination *)
+Lemma statistic_equals_definition_int_views :
+  forall (A res : Type) (R : list A -> res) (nan : res), R [] = nan ->
+  forall shape (a : idx -> A) (filt : A -> bool) (m : option (idx -> bool)) (view : list ventry) (red : list bool),
+    Forall (fun n => 0 <= n) shape ->
+    length red = length (sel_shape (view_sel shape view)) ->
+    fst (stat_view_e A res R nan shape a filt m view red) = out_shape (sel_shape (view_sel shape view)) red /\
+    forall o, in_box (out_shape (sel_shape (view_sel shape view)) red) o ->
+      snd (stat_view_e A res R nan shape a filt m view red) o =
+      R (map a (filter (fun c => mask_fun_e m c && filt (a c))
+                       (map (to_under_e (view_sel shape view)) (lane0 (sel_shape (view_sel shape view)) red o)))).
+Proof. intros A res R nan Hnil. apply stat_view_e_correct. exact Hnil. Qed.
 
 (* Data.compute_statistic outside the chunk loop and the SliceSubsetState shortcut *)
 Lemma compute_statistic_unchunked :
